@@ -11,8 +11,8 @@ from .c12 import Scripted, variants_for
 
 ID = "C10"
 LEVEL = "exploration"
-BUDGET = {"quick": 800, "thorough": 19200}
-WALL_CAP = {"quick": 420, "thorough": 3300}
+BUDGET = {"quick": 8000, "thorough": 160000}
+WALL_CAP = {"quick": 600, "thorough": 5400}
 RULE = ("case = generated 3D plotfile (nested partially refined levels, boxes scattered over 1-4 files per level in any "
         "on-disk order, NaN/inf/denormal payloads in a share of cases) x field x dtype in {float64, float32} x "
         "--limit_level in {absent, 0..finest}, run through the whip entry point (in-process main(), -y, explicit -o); "
